@@ -555,8 +555,32 @@ func (w *World) CheckByName(out *Outcome, o *Obs) []Violation {
 					}
 				}
 			}
-			if o.OK() && created[i.ID] && !r.Empty() && len(got) == 0 {
+			// a definition registered programmatically while the container refreshes exists for
+			// every component created after that moment; for one created during Run it may or may
+			// not have been there yet
+			lateTarget := false
+			if len(r.Cands) != 0 {
+				if ti := w.Insts[r.Cands[0]]; ti != nil && ti.Contributed && ti.ContribBy != "" {
+					lateTarget = true
+				}
+			}
+			if o.OK() && created[i.ID] && !r.Empty() && len(got) == 0 && !lateTarget {
 				vs = append(vs, v("C07", "by-name-empty", key, fmt.Sprintf("%s requested name %q (registered, assignable) but is empty after a successful start", key, r.ReqName)))
+			}
+			if pl, ok := o.PointsLate[i.ID]; ok && o.OK() && !created[i.ID] {
+				// the holder was created by the lookup that followed Run
+				got2 := pl[pt.Field]
+				for _, g := range got2 {
+					if ps, ok := o.Presets[key]; ok && ps == g {
+						continue // the application's own object
+					}
+					if c := w.componentOf(g); !(c == i.ID && r.SelfOnly) && (len(r.Cands) == 0 || c != r.Cands[0]) {
+						vs = append(vs, v("C07", "by-name-wrong-component", key, fmt.Sprintf("%s (created by a lookup after Run) requested name %q but holds %s (registered under that name: %v)", key, r.ReqName, g, w.ByName[r.ReqName])))
+					}
+				}
+				if !r.Empty() && len(got2) == 0 {
+					vs = append(vs, v("C07", "by-name-empty", key, fmt.Sprintf("%s requested name %q (registered, assignable) but is empty although its holder was created by a successful lookup after Run", key, r.ReqName)))
+				}
 			}
 		}
 	}
